@@ -184,6 +184,7 @@ class Driver(object):
         self.last_write = None
         self.resubmit = False
         self.story = None
+        self.redeclare = None
         self.script = []
         self.did_nested = False
         self.fresh_n = 0
@@ -251,6 +252,14 @@ class Driver(object):
             if self.family_ok(pages_of(op)):
                 return op
         self.resubmit = False
+        # the rule in force above a webentity that was just deleted / detached, declared again, identically
+        if self.redeclare is not None and rng.random() < self.profile.get("redeclare", 0.5):
+            a, self.redeclare = self.redeclare, None
+            if a in self.ram:
+                op = {"op": "AddRule", "anchor": a, "rule": dict(self.ram[a]), "wr": True}
+                self.note(op)
+                return op
+        self.redeclare = None
         # a site declared explicitly, then crawled, then its webentity deleted (the pages stay, the next
         # submission of known pages has to create a webentity again)
         if self.story is not None and rng.random() < self.profile.get("sitestory", 0.6):
@@ -435,6 +444,11 @@ class Driver(object):
             self.last_write = op
         elif n in ("DeleteWe", "RemovePrefix", "MovePrefix", "RemoveRule", "DeleteWeNC"):
             self.resubmit = True
+            if n in ("DeleteWe", "RemovePrefix") and self.ram:
+                gone = list(op.get("ps") or [op.get("p", b"")])
+                above = [a for a in sorted(self.ram) if any(g.startswith(a) for g in gone)]
+                if above:
+                    self.redeclare = above[0]      # a rule in force above what was just detached
         if n in ("CreateWe", "AddPrefix"):
             from impl import stems_of
             p = op["ps"][0] if n == "CreateWe" else op.get("p", b"")
@@ -524,6 +538,16 @@ class Driver(object):
                 if rng.random() < self.profile.get("yieldfreq", 0.3):
                     op["yf"] = rng.choice([1, 2, 3])
                 return op
+            unc = [l for l, c in self.last_pages if not c]
+            if len(unc) >= 1 and rng.random() < self.profile.get("mutual", 0.12):
+                # known, uncrawled pages that cite each other: each is met first as a target, then as a source;
+                # nothing new for the trie, only crawled marks
+                b_ = rng.choice(unc)
+                a_ = rng.choice(crawled + unc[:1])        # mostly an already crawled page: nothing to write for it
+                op = {"op": name, "data": [(a_, [b_]), (b_, [a_])] if a_ != b_ else [(b_, [a_, b_])]}
+                if rng.random() < 0.3:
+                    op["yf"] = rng.choice([1, 2, 3])
+                return op
             nsrc = rng.choice([1, 2, 2, 3, 4])
             pending = []
             for _ in range(nsrc):
@@ -578,6 +602,9 @@ class Driver(object):
             if not ids:
                 return None
             w = rng.choice(ids)
+            under = [x for x in ids if any(p.startswith(a) and p != a for p in we[x] for a in self.ram)]
+            if under and rng.random() < 0.5:
+                w = rng.choice(under)         # a webentity strictly beneath the anchor of a rule in force
             ps = list(we[w])
             r = rng.random()
             if r < 0.15 and len(ps) > 1:
